@@ -194,7 +194,9 @@ def acceptance(ctx, rep, label, scs, obss, check):
             continue
         lits.append(coq_case(sc, o))
         keep.append(k)
-    bad, fails, _ = C.coq_eval(ctx, label, COQ_HEADER, lits, coq_body(check), shard=150)
+    bad, fails = [], []
+    if lits:
+        bad, fails, _ = C.coq_eval(ctx, label, COQ_HEADER, lits, coq_body(check), shard=150)
     badk = sorted(pre_bad + [keep[i] for i in bad])
     allk = sorted(keep + pre_bad)
     rep.corr(label, len(allk), badk, fails, lambda k: dict(case=scs[k], lts=obss[k]["lts"][:400]))
